@@ -9,6 +9,7 @@ extern unsigned g_diag, g_kw, g_kw_wrong_token, g_kw_misplaced, g_kw_first, g_ex
 extern unsigned g_cmd_lit; extern _Bool g_lang_known, g_token_known, g_found, g_path_relative, g_arg1_empty;
 extern _Bool g_part_ok[3]; extern int g_part_val[3];
 extern size_t g_nargs, g_nvargs; extern unsigned g_expected_token, g_token;
+extern unsigned *const CPD_LINE_NUMBER;
 extern const unsigned CT_NONE_V, CT_TYPE_V, CT_MACRO_OPEN_V, CT_MACRO_CLOSE_V, CT_MACRO_ELSE_V;
 
 struct vstring; struct map_entry;
@@ -57,6 +58,8 @@ __CPROVER_ensures(g_incl_wrong_path == 0 && (!CMD(include) ==> g_incl == 0))
 __CPROVER_ensures((!SHORT && CMD(using) && NVARGS_OK && PARTS_OK) ==> (g_diag == 0 && *compat_level == LEVEL(g_part_val[0], g_part_val[1], g_nvargs == 3 ? g_part_val[2] : 0)))
 __CPROVER_ensures((!SHORT && CMD(using) && !(NVARGS_OK && PARTS_OK)) ==> (g_diag >= 1 && *compat_level == __CPROVER_old(*compat_level)))
 __CPROVER_ensures(!CMD(using) ==> *compat_level == __CPROVER_old(*compat_level))
+/* C16 "a diagnostic ... that names the file, line": the line counter of this file survives an include (the included file counts its own lines in the same variable) */
+__CPROVER_ensures(*CPD_LINE_NUMBER == __CPROVER_old(*CPD_LINE_NUMBER))
 /* name value: an unknown name is diagnosed; a known one is handed, with its value, to that option's reader exactly once */
 __CPROVER_ensures((!SHORT && CMD(none) && g_compat_handled == 0) ==> (g_found ? (g_read == 1 && g_diag == 0) : (g_read == 0 && g_diag == 1)))
 __CPROVER_ensures(g_read_wrong == 0 && g_read <= 1 && g_compat_handled <= 1 && (g_compat_handled == 1 ==> (g_read == 0 && g_diag == 0)) && (!CMD(none) ==> (g_read == 0 && g_compat_handled == 0)))
